@@ -226,4 +226,15 @@ theorem SRel.save {a b : Stack V} {fa fb : List Fork} (h : SRel a fa b fb) (f g 
   · rw [a3]; exact ⟨by omega, by omega, by omega, by rw [hf2]; exact fwa⟩
   · rw [b3]; exact ⟨by omega, by omega, by omega, by rw [hg2]; exact fwb⟩
 
+/-- `popfork`: both sides restore the index and limit their newest fork saved -/
+theorem SRel.restore {a b : Stack V} {f g : Fork} {fa fb : List Fork} (h : SRel a (f :: fa) b (g :: fb)) :
+    ForkCore f g ∧
+    SRel (a.restore f.stackindex f.stacklimit) fa (b.restore g.stackindex g.stacklimit) fb := by
+  obtain ⟨_, ⟨hc, ⟨xs, c1, c2⟩, hr⟩, la, lb, fwa, fwb⟩ := h
+  refine ⟨hc, ⟨xs, c1, c2⟩, hr, ?_, ?_, fwa.2.2.2, fwb.2.2.2⟩
+  · show -1 ≤ f.stacklimit ∧ f.stacklimit < a.data.size
+    have := fwa.2.1; have := fwa.2.2.1; omega
+  · show -1 ≤ g.stacklimit ∧ g.stacklimit < b.data.size
+    have := fwb.2.1; have := fwb.2.2.1; omega
+
 end Gojq.OptVM
